@@ -171,8 +171,8 @@ def check_linear(what, part, rep, times, data, cols, queries_per_col, got, opnam
         scale = float(np.max(np.abs(col)))
         slack = ULP * max(scale, np.finfo(float).tiny)
         for r, q in enumerate(queries_per_col[c]):
-            v = got[r, c]
-            ref, lo, hi = ref_linear(times, col, q)
+            v, q = float(got[r, c]), float(q)
+            ref, lo, hi = (float(x) for x in ref_linear(times, col, q))
             part.add("interpolated_values_checked")
             if not np.isfinite(v):
                 if len(times) == 1:
